@@ -144,6 +144,15 @@ func validateSignRequest(req *signature.SignRequest) error {
 		}
 	}
 
+	// the same holds for the other texts of a request: the content type and
+	// the signing agent are written as JSON strings / CBOR text strings
+	if !utf8.ValidString(req.Payload.ContentType) {
+		return &signature.InvalidSignRequestError{Msg: fmt.Sprintf("content type %q is not valid UTF-8", req.Payload.ContentType)}
+	}
+	if !utf8.ValidString(req.SigningAgent) {
+		return &signature.InvalidSignRequestError{Msg: fmt.Sprintf("signing agent %q is not valid UTF-8", req.SigningAgent)}
+	}
+
 	return validateSigningSchema(req.SigningScheme)
 }
 
